@@ -12,7 +12,7 @@ PROPERTY = "C03"
 RULE = (
     "ALL multisets of <= n bars with integer endpoints in {0..G}, b<d (nested, overlapping, disjoint, "
     "touching, equal births/deaths, repeated bars); per diagram: every row order (n<=3; reversal and "
-    "rotation beyond), 4 affine variants, int array, hom_deg 0/1 with a decoy diagram in the other slot. "
+    "rotation beyond), exact integer translations by -1,-2,-3,-5 and 2^20 (negative births, births at exactly 0), 4 affine variants, int array, hom_deg 0/1 with a decoy diagram in the other slot. "
     "Oracle: for every depth k=1..n+1 persim's PL function vs the k-th largest tent, exact rational "
     "arithmetic, on the union of persim's abscissae and all births/deaths/midpoints/crossings and "
     "outside both ends (both sides are linear in between, so this is equality for all real t). "
@@ -126,6 +126,11 @@ def run_case(case, ctx):
     compare(ctx, D, cp0, fc0, 0, "hom_deg=0 of [D, decoy]", "landscape-value-homdeg")
     _, cp1, fc1 = build(ctx, [decoy, np.array(D, dtype=float)], 1)
     compare(ctx, D, cp1, fc1, 0, "hom_deg=1 of [decoy, D]", "landscape-value-homdeg")
+    # exact integer translations: negative births, a bar born at exactly 0, large offsets (tolerance 0)
+    for c in (-1.0, -2.0, -3.0, -5.0, 1048576.0):
+        D3 = [[b + c, dd + c] for b, dd in D]
+        _, cp3, fc3 = build(ctx, [np.array(D3, dtype=float)], 0)
+        compare(ctx, D3, cp3, fc3, 0, "translated by %r" % c, "landscape-value-shift")
     # affine variants (inexact coordinates, negative values, large offset)
     for a, c in AFF[1:]:
         D2 = [[a * b + c, a * d + c] for b, d in D]
